@@ -94,16 +94,23 @@ class Extractor:
                 return self.expr(st.value, env)
             if isinstance(st, ast.If):
                 kind = self.test_kind(st.test, param)
+                if kind is None:
+                    cond = self.condition(st.test)
+                    if cond is not None:
+                        kind = ("cond",) + cond
                 if kind == "is_str":
                     return self.block(st.body + stmts[i + 1:], env, param)
                 if kind == "is_bytes":
                     return self.block(st.orelse + stmts[i + 1:], env, param)
-                if kind and kind[0] == "search":
-                    _, rname, var = kind
+                if kind and kind[0] in ("search", "cond"):
+                    if kind[0] == "search":
+                        _, rname, var = kind
+                        dfa = R.dfa_from_regex(self.regex_source(rname), self.alphabet, "search")
+                    else:
+                        _, var, dfa = kind
                     if var not in env:
-                        raise Outside("regex test on an unknown variable")
+                        raise Outside("test on an unknown variable")
                     base = env[var]
-                    dfa = R.dfa_from_regex(self.regex_source(rname), self.alphabet, "search")
                     sub_env = dict(env)
                     sub_env[var] = F.identity(self.alphabet)
                     for k in list(sub_env):
@@ -129,6 +136,69 @@ class Extractor:
                 and isinstance(test.func.value, ast.Name) and len(test.args) == 1 and isinstance(test.args[0], ast.Name)):
             return ("search", test.func.value.id, test.args[0].id)
         return None
+
+    def condition(self, test):
+        """a regular condition on ONE string variable -> (variable, DFA) or None.
+        atoms: v.startswith(c), v.endswith(c), c in v, c not in v, len(v) <op> k, RE.search(v); and / or / not."""
+        import re as _re
+        A = self.alphabet
+
+        def cls(chars=None):
+            return "(?:" + "|".join(_re.escape(a) for a in A) + ")"
+
+        def atom(t):
+            if isinstance(t, ast.Call) and isinstance(t.func, ast.Attribute) and isinstance(t.func.value, ast.Name) and len(t.args) == 1:
+                v = t.func.value.id
+                if t.func.attr in ("startswith", "endswith") and isinstance(t.args[0], ast.Constant) and isinstance(t.args[0].value, str):
+                    c = _re.escape(t.args[0].value)
+                    pat = f"{c}{cls()}*" if t.func.attr == "startswith" else f"{cls()}*{c}"
+                    return v, R.dfa_from_regex(pat, A, "fullmatch")
+                if t.func.attr == "search" and isinstance(t.args[0], ast.Name):
+                    return t.args[0].id, R.dfa_from_regex(self.regex_source(t.func.value.id), A, "search")
+            if isinstance(t, ast.Compare) and len(t.ops) == 1:
+                l, op, r = t.left, t.ops[0], t.comparators[0]
+                # v[0] == c / v[-1] == c  (an empty v would raise IndexError: only sound under a length guard, which
+                # the conjunction must contain; the resulting language is "non-empty and first/last character is c")
+                if (isinstance(l, ast.Subscript) and isinstance(l.value, ast.Name) and isinstance(op, (ast.Eq, ast.NotEq))
+                        and isinstance(r, ast.Constant) and isinstance(r.value, str) and len(r.value) == 1):
+                    try:
+                        idx = ast.literal_eval(l.slice)
+                    except Exception:
+                        idx = None
+                    if idx in (0, -1):
+                        c = _re.escape(r.value)
+                        d = R.dfa_from_regex(f"{c}{cls()}*" if idx == 0 else f"{cls()}*{c}", A, "fullmatch")
+                        return l.value.id, (d if isinstance(op, ast.Eq) else d.complement().intersect(R.dfa_from_regex(f"{cls()}+", A, "fullmatch")))
+                if isinstance(op, (ast.In, ast.NotIn)) and isinstance(l, ast.Constant) and isinstance(l.value, str) and isinstance(r, ast.Name):
+                    d = R.dfa_contains_any([l.value], A)
+                    return r.id, (d if isinstance(op, ast.In) else d.complement())
+                if (isinstance(l, ast.Call) and isinstance(l.func, ast.Name) and l.func.id == "len" and len(l.args) == 1
+                        and isinstance(l.args[0], ast.Name) and isinstance(r, ast.Constant) and isinstance(r.value, int)):
+                    k = r.value
+                    lo, hi = {ast.GtE: (k, None), ast.Gt: (k + 1, None), ast.LtE: (0, k), ast.Lt: (0, k - 1), ast.Eq: (k, k)}.get(type(op), (None, None))
+                    if lo is None and hi is None:
+                        return None
+                    hi_s = "" if hi is None else str(max(hi, 0))
+                    return l.args[0].id, R.dfa_from_regex(f"{cls()}{{{max(lo, 0)},{hi_s}}}", A, "fullmatch")
+            return None
+
+        def go(t):
+            if isinstance(t, ast.BoolOp):
+                parts = [go(x) for x in t.values]
+                if any(p is None for p in parts) or len({p[0] for p in parts}) != 1:
+                    return None
+                d = parts[0][1]
+                for _, e in parts[1:]:
+                    d = d.intersect(e) if isinstance(t.op, ast.And) else d.union(e)
+                return parts[0][0], d
+            if isinstance(t, ast.UnaryOp) and isinstance(t.op, ast.Not):
+                p = go(t.operand)
+                return None if p is None else (p[0], p[1].complement())
+            return atom(t)
+        try:
+            return go(test)
+        except NotImplementedError:
+            return None
 
     def const(self, node):
         if isinstance(node, ast.Constant) and isinstance(node.value, (str, bytes)):
